@@ -10,6 +10,14 @@ usage: seeded.py ingest <agent dir> <n> <property id>       (expects seed<n>.dif
 import sys, os, json, subprocess, tempfile, shutil, glob, re
 VERIF = os.path.dirname(os.path.dirname(os.path.abspath(__file__)))
 ENV = dict(os.environ, GOFLAGS="-mod=mod", GOPROXY="off", GOSUMDB="off", GOTOOLCHAIN="local", GOWORK="off")
+
+def use_private_cache():
+    """Scratch builds, test runs and analyses get a build cache of their own that is removed at exit (hundreds of
+    scratch trees would otherwise fill the disk)."""
+    import atexit
+    d = tempfile.mkdtemp(prefix="hl-gocache-", dir="/tmp")
+    ENV["GOCACHE"] = d
+    atexit.register(lambda: shutil.rmtree(d, ignore_errors=True))
 PROPS = [f"C{i:02d}" for i in range(1, 21)]
 
 def sh(cmd, cwd, timeout=900):
@@ -143,6 +151,7 @@ def recheck():
         print(d["name"], "->", d["detected_by"] or "NOT DETECTED")
 
 if __name__ == "__main__":
+    use_private_cache()
     if sys.argv[1] == "ingest": ingest(sys.argv[2], sys.argv[3], sys.argv[4], sys.argv[5] if len(sys.argv) > 5 else 0)
     elif sys.argv[1] == "index": index()
     elif sys.argv[1] == "recheck": recheck()
